@@ -537,7 +537,7 @@ func (r *yieldRewriter) rewriteForStmt(
 		// body may end with a switch stmt containing yield
 		r.generateLastNormalIfNecessary(body)
 		callFor := r.CallFor(
-			r.ForCondFun(stmt.Cond),
+			r.ForCondFun(r.boolCond(stmt.Cond)),
 			r.ForPostFun(stmt.Post),
 			r.CallDelay(body.block),
 		)
@@ -587,13 +587,26 @@ func (r *yieldRewriter) rewriteForStmt(
 	}
 
 	callFor := r.CallFor(
-		r.ForCondFun(stmt.Cond),
+		r.ForCondFun(r.boolCond(stmt.Cond)),
 		nil,
 		r.CallDelay(body.block),
 	)
 	children = r.combineIfNecessary(children)
 	children.pushReturn(callFor, kindFor)
 	return children
+}
+
+// the cond func returns bool, cond of named boolean type must be converted,
+// e.g., type Flag bool; for flag { ... }
+func (r *yieldRewriter) boolCond(cond ast.Expr) ast.Expr {
+	if isNil(cond) {
+		return cond
+	}
+	ty := r.pkg.TypeOf(cond)
+	if ty == nil || instanceof[*types.Basic](ty) {
+		return cond
+	}
+	return X.Call(X.Ident("bool"), cond)
 }
 
 func (r *yieldRewriter) combineIfNecessary(children *block) *block {
